@@ -66,7 +66,18 @@ var verifTypes = []string{"Note", "Article", "Video", "Image", "Audio", "Page", 
 	"Collection", "OrderedCollection", "CollectionPage", "OrderedCollectionPage", "Link", "Tombstone", "Mention", "", "note"}
 
 func verifMarkupBody(rng *rand.Rand) (string, string) {
-	switch rng.Intn(9) {
+	switch rng.Intn(12) {
+	case 9: /* alternating kinds of blocks, each with text of its own */
+		depth := []int{10, 40, 66, 100, 150}[rng.Intn(5)]
+		unit := []string{"<blockquote>a<ul><li>", "<blockquote><h3><ul><li><b><code>", "<ul><li>x<ul><li>y", "<h2><blockquote>q", "<div><ul><li><blockquote>z "}[rng.Intn(5)]
+		return strings.Repeat(unit, depth) + []string{"end", "text here", "<hr>", "<pre>a\nb</pre>"}[rng.Intn(4)], "text/html"
+	case 10: /* hundreds of nested inline styles, the same or alternating, around styled text */
+		depth := []int{80, 300, 500, 1100}[rng.Intn(4)]
+		unit := []string{"<b>", "<b><i>", "<b><i><u><s><code><mark>", "<a href=\"https://x.example/\">", "<i><a href=\"https://x.example/y\">"}[rng.Intn(5)]
+		return strings.Repeat(unit, depth) + "<i>" + strings.Repeat("y", 20+rng.Intn(120)) + "</i> tail", "text/html"
+	case 11: /* the same in Markdown */
+		depth := 5 + rng.Intn(120)
+		return strings.Repeat("> * ", depth) + "deep\n\n" + strings.Repeat("**_", 40) + "styled" + strings.Repeat("_**", 40), "text/markdown"
 	case 0: /* nesting deeper than any terminal is wide */
 		depth := []int{3, 20, 79, 80, 81, 82, 90, 120, 200}[rng.Intn(9)]
 		tag := []string{"blockquote", "ul><li", "h6", "div", "b", "pre", "unknownx", "h1"}[rng.Intn(8)]
@@ -137,7 +148,7 @@ func verifTimed(what string, f func() int) int {
 	return n
 }
 
-const verifCallLimit = 12 * time.Second
+const verifCallLimit = 25 * time.Second
 
 func verifExercise(item any) int {
 	size := 0
